@@ -710,8 +710,10 @@ carquet_status_t carquet_writer_close(carquet_writer_t* writer) {
         goto cleanup;
     }
 
-    /* Flush and close */
-    if (fflush(writer->file) != 0) {
+    /* Flush and close. The stream's error indicator also covers a write that failed
+     * in an earlier call (and was reported by it) after which the caller kept going:
+     * bytes were lost then, so the file cannot be complete. */
+    if (fflush(writer->file) != 0 || ferror(writer->file)) {
         status = CARQUET_ERROR_FILE_WRITE;
     }
 
